@@ -1635,6 +1635,7 @@ class Stream(AbstractStream):
             self._imol.data = other._imol.data
         if phase and self._imol.data.ndim == 1:
             self._imol._phase = other._imol._phase
+        if hasattr(self, '_streams'): self._streams = {} # Phase views refer to the old data
             
     def unlink(self):
         """
@@ -1672,6 +1673,7 @@ class Stream(AbstractStream):
             raise RuntimeError('phase is locked; stream cannot be unlinked')
         self._imol = imol.copy() # A proxy shares the indexer itself, not just its data
         self._thermal_condition = self._thermal_condition.copy()
+        if hasattr(self, '_streams'): self._streams = {} # Phase views refer to the old data
         self.reset_cache()
         
     def copy_like(self, other):
